@@ -3,7 +3,7 @@ from . import world2
 
 CLASSES = {"C15": ("emg", "fpcal", "fpdata"), "C16": ("data3d", "ft", "emg"),
            "C20": world2.ALL}
-BAD_KINDS = ["len+1", "len-1", "len+2", "len+7", "len-99", "kind:str", "kind:none", "kind:int", "kind:array",
+BAD_KINDS = ["len+1", "len-1", "len+2", "len+7", "len-99", "shape:2d", "kind:str", "kind:none", "kind:int", "kind:array",
              "kind:other_item"]
 
 
@@ -59,6 +59,12 @@ def gen_run(rng, prop, index, tier):
                 q = rng.random()
                 ch = None if q < 0.5 else ("taken" if q < 0.62 else rng.choice((rng.randint(0, 12), rng.randint(0, 300))))
             op = {"op": "add", "a": a, "id": ids(1)[0], "ch": ch, "k": rng.randint(0, 9)}
+            q = rng.random()
+            if q < 0.12:
+                op["dup"] = rng.randint(0, 9)
+                op["dup_how"] = rng.choice(("equal", "same_object"))
+            elif q < 0.22 and len(alive) > 1:
+                op["borrow"] = rng.choice([x for x in alive if x != a])
             if isinstance(ch, int):
                 op["explicit"] = True
             ops.append(op)
@@ -74,6 +80,9 @@ def gen_run(rng, prop, index, tier):
                 op.update(bad_at=rng.randint(0, k - 1), bad_kind=rng.choice(BAD_KINDS))
             elif q < 0.55:
                 op.update(raise_after=rng.randint(0, k))
+            else:
+                op["as"] = rng.choice(("list", "list", "iter", "gen", "tuple", "own"))
+                op["keep"] = rng.sample(range(6), rng.randint(0, 4))
             if cls == "fpcal":
                 chs = rng.sample(range(0, 40), k)
                 op["chs"] = chs
